@@ -61,16 +61,30 @@ fn symmetric_matrix(rng: &mut Rng, n: usize) -> (String, Vec<Vec<f64>>) {
             ("zero_row_and_column".into(), a)
         }
         6 => {
-            // extremely ill-conditioned: kappa up to 1e20
-            let (_, mut a) = spd_matrix(rng, n);
-            let span = rng.range(5.0, 10.0);
+            // extremely ill-conditioned: kappa up to 1e20; graded downwards or upwards, on top of a
+            // generic or a nearly singular (Hilbert / equicorrelated) matrix
+            let base = rng.below(3);
+            let mut a = match base {
+                0 => spd_matrix(rng, n).1,
+                1 => (0..n).map(|i| (0..n).map(|j| 1.0 / (i + j + 1) as f64).collect()).collect(),
+                _ => {
+                    let dlt = 10f64.powf(-rng.range(2.0, 8.0));
+                    (0..n).map(|i| (0..n).map(|j| if i == j { 1.0 } else { 1.0 - dlt }).collect()).collect()
+                }
+            };
+            let span = if base == 0 { rng.range(5.0, 10.0) } else { rng.range(0.0, 6.0) };
+            let up = rng.chance(0.5);
             for i in 0..n {
                 for j in 0..n {
                     let s = 10f64.powf(-span * (i + j) as f64 / (2 * n.max(2)) as f64 * 2.0);
-                    a[i][j] *= s;
+                    if up {
+                        a[i][j] /= s;
+                    } else {
+                        a[i][j] *= s;
+                    }
                 }
             }
-            ("ill_conditioned".into(), a)
+            ((if up { "ill_conditioned_graded_up" } else { "ill_conditioned" }).into(), a)
         }
         7 => {
             // scaled by 2^(+-500): determinant under/overflow
